@@ -100,5 +100,37 @@ PROPS["C03"] = {
     "exhaustive": False,
 }
 
+PROPS["C01"] = {
+    "budget": {"quick": 50, "thorough": 540},
+    "rule": "programs from a typed generator (profiles mixed / hostile names + error-prone operands / unions + cells / iterators; <= 10 top-level statements, expression depth <= 3) rendered with literal and with hidden constants, "
+            "their accepted token-level mutants, and host-API calls (create_call, 3 generated argument vectors each) of every function value a program yields. A monitor hooked into Instruction::exec and Function::exec judges every instruction result, "
+            "every bound argument and every returned value against the static type the checker computed for it, by runtime tag (as_type().matches) and by contents recursively (harness membership test; cells by exact declared type and current content), "
+            "plus the program's reported type vs its result and all cells reachable from the result. Frames of the interpreter's generic helper closures are skipped (placeholder types); their element-carrying steps are judged against the retyped result. "
+            "The first violation of an execution is reported (later ones may be the same value flowing on). distinct_nontrivial = distinct program texts executed under the monitor.",
+    "assumptions": COMMON_ASSUME + ["membership of a value in a type is judged by the harness oracle (oracle.rs), not by Type::matches alone"],
+    "floors": {"quick": {"exec_events_nontrivial": 300000, "shape:instruction_kinds_executed": 55, "shape:kind_type_value_triples": 800, "call_args_judged": 20000, "returns_judged": 20000, "helper_steps_judged": 2000},
+               "thorough": {"exec_events_nontrivial": 5000000, "shape:instruction_kinds_executed": 60, "shape:kind_type_value_triples": 1500, "call_args_judged": 200000, "returns_judged": 200000, "helper_steps_judged": 20000}},
+    "technique": "runtime type-soundness monitor on hooked instruction results, call arguments and returns, over generated programs / mutants / host calls",
+    "level_text": "Every value produced while hundreds of thousands of generated, accepted programs run is checked against the static type of the instruction that produced it (tag and contents). Exploration of the generator's program space; not a proof of soundness.",
+    "level_note": "reach = what the generator (genp.rs) emits: no imports, no stdlib beyond std.len, nesting depth <= 3; trusts oracle.rs membership",
+    "exhaustive": False,
+}
+
+PROPS["C02"] = {
+    "budget": {"quick": 50, "thorough": 540},
+    "rule": "same workload as C01 with the error-prone profile weighted in (zero divisors, shifts by 64, negative exponents / lengths, out-of-range indices at run time; break/continue/return at every nesting depth; matches over every union member; "
+            "closures escaping their scope; iterators pulled after exhaustion; bounded recursion), accepted token-level mutants of accepted programs, and host-API calls of every yielded function with admissible arguments. "
+            "Oracle: each execution ends with a value or one of the six documented errors; a panic (hook records message, location and the SimpleSL source being executed) or an undocumented error is a violation; fuel / depth / allocation exhaustion is inconclusive. "
+            "distinct_nontrivial = distinct program texts executed.",
+    "assumptions": COMMON_ASSUME + ["fuel (6000 loop iterations + calls) and call depth 120 bound every execution; exceeding them is inconclusive, never a violation"],
+    "floors": {"quick": {"evaluations": 100000, "shape:instruction_kinds_executed": 55, "shape:runtime_errors_observed": 4, "host-call:value": 3000},
+               "thorough": {"evaluations": 500000, "shape:instruction_kinds_executed": 60, "shape:runtime_errors_observed": 6, "host-call:value": 100000}},
+    "death_is_violation": True,
+    "technique": "runtime panic monitor (panic hook + catch_unwind + worker exit status) with attribution to preceding soundness events, over generated programs / accepted mutants / host calls",
+    "level_text": "Tens of thousands (quick) to millions (thorough) of accepted programs and host calls are executed with a panic monitor; any panic, abort or undocumented error is a violation with the program text as witness. Exploration.",
+    "level_note": "same generator reach as C01; resource exhaustion is outside the claim and counted inconclusive",
+    "exhaustive": False,
+}
+
 # properties deliberately not claimed (reason each); anything else missing from PROPS is simply not built yet
 NOT_APPLICABLE = {}
